@@ -414,6 +414,8 @@ fn check_type(rep: &mut Report, number: u16, tier: Tier, part: u32) {
         watch_leave();
         return;
     }
+    // the empty triple (no satellites, no signals, no cells): all three masks zero, decodes to empty lists
+    check_triple(rep, number, &[], &[], &[], 1, "empty");
     // boundary scopes
     let all_sats: Vec<u8> = (1..=64).collect();
     // (satellites, signals); the last entries use every recognised signal of the constellation
